@@ -676,6 +676,13 @@ impl<'a> Evaluator<'a> {
                 let q = crate::quotex::parse_quote_body(&m.tokens);
                 Ok(Val::Sym(subst_quote(&q, _env)))
             }
+            // the generators' own `error!(Kind, "fmt", ..)`: a GeneratorError of that kind
+            "error" => {
+                let kind = m.tokens.clone().into_iter().next().map(|t| t.to_string()).unwrap_or_default();
+                let mut f = BTreeMap::new();
+                f.insert("kind".to_string(), Val::ctor(&kind));
+                Ok(Val::Ctor("GeneratorError".into(), vec![], f))
+            }
             "format_ident" | "format" => {
                 let args = crate::model::macro_args(m).ok_or("cannot parse macro args")?;
                 if let Some(syn::Expr::Lit(l)) = args.first() {
@@ -1153,7 +1160,11 @@ impl<'a> Evaluator<'a> {
                 let name = crate::model::callee_name(c).unwrap_or_default();
                 let mut args = vec![];
                 for a in c.args.iter() {
-                    args.push(self.eval(a, env)?);
+                    let v = self.eval(a, env)?;
+                    if matches!(&v, Val::Ctor(n, _, _) if n == "$return") {
+                        return Ok(v); // `Ok(match x { .. => return Err(..) })`: the early return leaves the call unevaluated
+                    }
+                    args.push(v);
                 }
                 if let Some(r) = (self.call_hook)(self, &tok(&c.func), &args) {
                     return r;
